@@ -100,6 +100,10 @@ def hermitian_configs(tier, hermitian=True):
     add(carrier="C", sizes=[2, 2], spectrum="sym", classes=[0, 0, 1, 2], terms=[[1]], max_order=3, fd=[0, 1])
     add(carrier="C", sizes=[1, 1, 2], spectrum="sym", terms=[[1]], max_order=2, fd=[2])
     add(carrier="C", sizes=[1, 2], spectrum=RAT_SPECTRA[3], terms=[[1, 0], [0, 1], [1, 1]], max_order=3, fd={"1": [[0, 1], [1, 0]]})
+    # an unperturbed block that is exactly zero (represented internally by a 0-d eigenvalue array), as row and as column block
+    add(carrier="C", sizes=[2, 2], spectrum=["1", "3", "0", "0"], terms=[[1]], max_order=2)
+    add(carrier="C", sizes=[2, 1], spectrum=["0", "0", "2"], terms=[[1]], max_order=3)
+    add(carrier="A", sizes=[2, 2], spectrum=["1", "2", "0", "0"], terms=[[1]], max_order=3)
     if tier == "thorough":
         add(carrier="C", sizes=[2, 2], spectrum="sym", terms=[[1]], max_order=3, fd=[0, 1])
         add(carrier="C", sizes=[2, 2], spectrum="sym", terms=[[1]], max_order=3, fd={"0": [[0, 1], [1, 0]]})
